@@ -8,3 +8,30 @@ t = subprocess.run(['/verif/tools/seed_table.py'], capture_output=True, text=Tru
 i, j = s.index(a) + len(a), s.index(b)
 open(p, 'w').write(s[:i] + '\n' + t + s[j:])
 print('table rows:', t.count('\n') - 2)
+
+# --- as-built table (section 9) from reports/tier_summary.json
+import json, os
+sp = '/verif/reports/tier_summary.json'
+if os.path.exists(sp):
+    summ = json.load(open(sp))
+    man = {c['property_id']: c for c in json.load(open('/verif/MANIFEST.json'))['checks']}
+    def cell(x):
+        if not x: return ''
+        if x.get('states'):
+            body = '%s states / %s transitions, depth %s%s' % ('{:,}'.format(x['states']), '{:,}'.format(x['transitions']), x.get('max_depth'), ', **closed**' if x.get('closed') else '')
+        else:
+            body = '%s cases (%s distinct non-trivial)' % ('{:,}'.format(x['evaluations']), '{:,}'.format(x['distinct_nontrivial']))
+        return '%s; %.0f s wall, %.0f s CPU' % (body, x['wall_s'], x['cpu_s'])
+    rows = ['| id | engine, level | quick | thorough | verdict on the final tree |', '|---|---|---|---|---|']
+    for pid in sorted(summ):
+        q, t = summ[pid].get('quick'), summ[pid].get('thorough')
+        c = man.get(pid, {})
+        ver = []
+        for name, x in (('quick', q), ('thorough', t)):
+            if x: ver.append('%s %s%s' % (name, 'HELD' if x['exit'] == 0 else 'exit %d' % x['exit'], (' (+%d KNOWN-FINDING)' % x['known_findings']) if x.get('known_findings') else ''))
+        rows.append('| %s | %s, %s | %s | %s | %s |' % (pid, c.get('engine', ''), (c.get('level_claimed') or {}).get('category', ''), cell(q), cell(t), '; '.join(ver)))
+    s = open(p).read()
+    a, b = '<!-- ASBUILT-TABLE-BEGIN -->', '<!-- ASBUILT-TABLE-END -->'
+    i, j = s.index(a) + len(a), s.index(b)
+    open(p, 'w').write(s[:i] + '\n' + '\n'.join(rows) + '\n' + s[j:])
+    print('as-built rows:', len(rows) - 2)
